@@ -19,10 +19,43 @@
                 invariant
                     crate::is_tail(bytes@, bytes0), crate::frame::tail_base(bytes0), bytes@.len() <= bytes0.len(),
                     curr_len <= usize::MAX,
+        //@ tag tags.bookkeeping C13
+                    actual_tags@ =~= seen,
+                    required_tags@ =~= Set::<u16>::empty().difference(seen),
+        //@ tag tags.loop.decreases C02
                 decreases bytes@.len() + (if curr_len != bytes@.len() { 1nat } else { 0nat }),
         //@ entry
             let ghost bytes0 = bytes@;
+            let ghost mut seen: Set<u16> = Set::<u16>::empty();
             proof { lemma_slice_len_le_isize_max(bytes); crate::frame::lemma_tail_base(bytes0); }
+        //@ before (card_type,bytes)=<
+        //@ tag tags.no_second_dispatch.card_type C13
+            proof { assert(!seen.contains(65u16)); seen = seen.insert(65u16) ; }
+        //@ before returnErr(zvt_builder::ZVTError::DuplicateTag(zvt_builder::Tag(65u16)
+        //@ tag tags.duplicate_error_is_true.card_type C13
+            proof { assert(seen.contains(65u16)) ; }
+        //@ before (application_id,bytes)=<
+        //@ tag tags.no_second_dispatch.application_id C13
+            proof { assert(!seen.contains(67u16)); seen = seen.insert(67u16) ; }
+        //@ before returnErr(zvt_builder::ZVTError::DuplicateTag(zvt_builder::Tag(67u16)
+        //@ tag tags.duplicate_error_is_true.application_id C13
+            proof { assert(seen.contains(67u16)) ; }
+        //@ before letmutas_vec
+            let ghost req_left = required_tags@;
+        //@ before returnErr(zvt_builder::ZVTError::MissingRequiredTags
+        //@ tag tags.missing_names_all C13
+            proof {
+                assert(req_left =~= Set::<u16>::empty().difference(seen));
+                assert forall|i: int| 0 <= i < as_vec@.len() implies Set::<u16>::empty().contains((#[trigger] as_vec@[i]).0) && !seen.contains(as_vec@[i].0) by {
+                    assert(req_left.contains(as_vec@[i].0));
+                }
+                assert forall|t: u16| Set::<u16>::empty().contains(t) && !seen.contains(t) implies exists|i: int| 0 <= i < as_vec@.len() && (#[trigger] as_vec@[i]).0 == t by {
+                    assert(req_left.contains(t));
+                }
+            }
+        //@ tail
+        //@ tag tags.ok_only_if_all_mandatory C13
+            proof { assert(Set::<u16>::empty().subset_of(seen)); }
         //@ end
         proof fn law_dec_bounds(b: Seq<u8>) {}
         proof fn law_dec_frame(b: Seq<u8>, s: Seq<u8>) {}
@@ -50,10 +83,37 @@
                 invariant
                     crate::is_tail(bytes@, bytes0), crate::frame::tail_base(bytes0), bytes@.len() <= bytes0.len(),
                     curr_len <= usize::MAX,
+        //@ tag tags.bookkeeping C13
+                    actual_tags@ =~= seen,
+                    required_tags@ =~= Set::<u16>::empty().difference(seen),
+        //@ tag tags.loop.decreases C02
                 decreases bytes@.len() + (if curr_len != bytes@.len() { 1nat } else { 0nat }),
         //@ entry
             let ghost bytes0 = bytes@;
+            let ghost mut seen: Set<u16> = Set::<u16>::empty();
             proof { lemma_slice_len_le_isize_max(bytes); crate::frame::lemma_tail_base(bytes0); }
+        //@ before (subs,bytes)=<
+        //@ tag tags.no_second_dispatch.subs C13
+            proof { assert(!seen.contains(96u16)); seen = seen.insert(96u16) ; }
+        //@ before returnErr(zvt_builder::ZVTError::DuplicateTag(zvt_builder::Tag(96u16)
+        //@ tag tags.duplicate_error_is_true.subs C13
+            proof { assert(seen.contains(96u16)) ; }
+        //@ before letmutas_vec
+            let ghost req_left = required_tags@;
+        //@ before returnErr(zvt_builder::ZVTError::MissingRequiredTags
+        //@ tag tags.missing_names_all C13
+            proof {
+                assert(req_left =~= Set::<u16>::empty().difference(seen));
+                assert forall|i: int| 0 <= i < as_vec@.len() implies Set::<u16>::empty().contains((#[trigger] as_vec@[i]).0) && !seen.contains(as_vec@[i].0) by {
+                    assert(req_left.contains(as_vec@[i].0));
+                }
+                assert forall|t: u16| Set::<u16>::empty().contains(t) && !seen.contains(t) implies exists|i: int| 0 <= i < as_vec@.len() && (#[trigger] as_vec@[i]).0 == t by {
+                    assert(req_left.contains(t));
+                }
+            }
+        //@ tail
+        //@ tag tags.ok_only_if_all_mandatory C13
+            proof { assert(Set::<u16>::empty().subset_of(seen)); }
         //@ end
         proof fn law_dec_bounds(b: Seq<u8>) {}
         proof fn law_dec_frame(b: Seq<u8>, s: Seq<u8>) {}
@@ -81,10 +141,91 @@
                 invariant
                     crate::is_tail(bytes@, bytes0), crate::frame::tail_base(bytes0), bytes@.len() <= bytes0.len(),
                     curr_len <= usize::MAX,
+        //@ tag tags.bookkeeping C13
+                    actual_tags@ =~= seen,
+                    required_tags@ =~= Set::<u16>::empty().difference(seen),
+        //@ tag tags.loop.decreases C02
                 decreases bytes@.len() + (if curr_len != bytes@.len() { 1nat } else { 0nat }),
         //@ entry
             let ghost bytes0 = bytes@;
+            let ghost mut seen: Set<u16> = Set::<u16>::empty();
             proof { lemma_slice_len_le_isize_max(bytes); crate::frame::lemma_tail_base(bytes0); }
+        //@ before (uuid,bytes)=<
+        //@ tag tags.no_second_dispatch.uuid C13
+            proof { assert(!seen.contains(76u16)); seen = seen.insert(76u16) ; }
+        //@ before returnErr(zvt_builder::ZVTError::DuplicateTag(zvt_builder::Tag(76u16)
+        //@ tag tags.duplicate_error_is_true.uuid C13
+            proof { assert(seen.contains(76u16)) ; }
+        //@ before (maximum_pre_autorisation,bytes)=<
+        //@ tag tags.no_second_dispatch.maximum_pre_autorisation C13
+            proof { assert(!seen.contains(7947u16)); seen = seen.insert(7947u16) ; }
+        //@ before returnErr(zvt_builder::ZVTError::DuplicateTag(zvt_builder::Tag(7947u16)
+        //@ tag tags.duplicate_error_is_true.maximum_pre_autorisation C13
+            proof { assert(seen.contains(7947u16)) ; }
+        //@ before (card_identification_item,bytes)=<
+        //@ tag tags.no_second_dispatch.card_identification_item C13
+            proof { assert(!seen.contains(7956u16)); seen = seen.insert(7956u16) ; }
+        //@ before returnErr(zvt_builder::ZVTError::DuplicateTag(zvt_builder::Tag(7956u16)
+        //@ tag tags.duplicate_error_is_true.card_identification_item C13
+            proof { assert(seen.contains(7956u16)) ; }
+        //@ before (ats,bytes)=<
+        //@ tag tags.no_second_dispatch.ats C13
+            proof { assert(!seen.contains(8005u16)); seen = seen.insert(8005u16) ; }
+        //@ before returnErr(zvt_builder::ZVTError::DuplicateTag(zvt_builder::Tag(8005u16)
+        //@ tag tags.duplicate_error_is_true.ats C13
+            proof { assert(seen.contains(8005u16)) ; }
+        //@ before (card_type,bytes)=<
+        //@ tag tags.no_second_dispatch.card_type C13
+            proof { assert(!seen.contains(8012u16)); seen = seen.insert(8012u16) ; }
+        //@ before returnErr(zvt_builder::ZVTError::DuplicateTag(zvt_builder::Tag(8012u16)
+        //@ tag tags.duplicate_error_is_true.card_type C13
+            proof { assert(seen.contains(8012u16)) ; }
+        //@ before (sub_type,bytes)=<
+        //@ tag tags.no_second_dispatch.sub_type C13
+            proof { assert(!seen.contains(8013u16)); seen = seen.insert(8013u16) ; }
+        //@ before returnErr(zvt_builder::ZVTError::DuplicateTag(zvt_builder::Tag(8013u16)
+        //@ tag tags.duplicate_error_is_true.sub_type C13
+            proof { assert(seen.contains(8013u16)) ; }
+        //@ before (atqa,bytes)=<
+        //@ tag tags.no_second_dispatch.atqa C13
+            proof { assert(!seen.contains(8015u16)); seen = seen.insert(8015u16) ; }
+        //@ before returnErr(zvt_builder::ZVTError::DuplicateTag(zvt_builder::Tag(8015u16)
+        //@ tag tags.duplicate_error_is_true.atqa C13
+            proof { assert(seen.contains(8015u16)) ; }
+        //@ before (sak,bytes)=<
+        //@ tag tags.no_second_dispatch.sak C13
+            proof { assert(!seen.contains(8016u16)); seen = seen.insert(8016u16) ; }
+        //@ before returnErr(zvt_builder::ZVTError::DuplicateTag(zvt_builder::Tag(8016u16)
+        //@ tag tags.duplicate_error_is_true.sak C13
+            proof { assert(seen.contains(8016u16)) ; }
+        //@ before (subs,bytes)=<
+        //@ tag tags.no_second_dispatch.subs C13
+            proof { assert(!seen.contains(96u16)); seen = seen.insert(96u16) ; }
+        //@ before returnErr(zvt_builder::ZVTError::DuplicateTag(zvt_builder::Tag(96u16)
+        //@ tag tags.duplicate_error_is_true.subs C13
+            proof { assert(seen.contains(96u16)) ; }
+        //@ before (subs_on_card,bytes)=<
+        //@ tag tags.no_second_dispatch.subs_on_card C13
+            proof { assert(!seen.contains(98u16)); seen = seen.insert(98u16) ; }
+        //@ before returnErr(zvt_builder::ZVTError::DuplicateTag(zvt_builder::Tag(98u16)
+        //@ tag tags.duplicate_error_is_true.subs_on_card C13
+            proof { assert(seen.contains(98u16)) ; }
+        //@ before letmutas_vec
+            let ghost req_left = required_tags@;
+        //@ before returnErr(zvt_builder::ZVTError::MissingRequiredTags
+        //@ tag tags.missing_names_all C13
+            proof {
+                assert(req_left =~= Set::<u16>::empty().difference(seen));
+                assert forall|i: int| 0 <= i < as_vec@.len() implies Set::<u16>::empty().contains((#[trigger] as_vec@[i]).0) && !seen.contains(as_vec@[i].0) by {
+                    assert(req_left.contains(as_vec@[i].0));
+                }
+                assert forall|t: u16| Set::<u16>::empty().contains(t) && !seen.contains(t) implies exists|i: int| 0 <= i < as_vec@.len() && (#[trigger] as_vec@[i]).0 == t by {
+                    assert(req_left.contains(t));
+                }
+            }
+        //@ tail
+        //@ tag tags.ok_only_if_all_mandatory C13
+            proof { assert(Set::<u16>::empty().subset_of(seen)); }
         //@ end
         proof fn law_dec_bounds(b: Seq<u8>) {}
         proof fn law_dec_frame(b: Seq<u8>, s: Seq<u8>) {}
@@ -112,10 +253,37 @@
                 invariant
                     crate::is_tail(bytes@, bytes0), crate::frame::tail_base(bytes0), bytes@.len() <= bytes0.len(),
                     curr_len <= usize::MAX,
+        //@ tag tags.bookkeeping C13
+                    actual_tags@ =~= seen,
+                    required_tags@ =~= Set::<u16>::empty().difference(seen),
+        //@ tag tags.loop.decreases C02
                 decreases bytes@.len() + (if curr_len != bytes@.len() { 1nat } else { 0nat }),
         //@ entry
             let ghost bytes0 = bytes@;
+            let ghost mut seen: Set<u16> = Set::<u16>::empty();
             proof { lemma_slice_len_le_isize_max(bytes); crate::frame::lemma_tail_base(bytes0); }
+        //@ before (enable_extended_contactless_card_detection,bytes)=<
+        //@ tag tags.no_second_dispatch.enable_extended_contactless_card_detection C13
+            proof { assert(!seen.contains(8178u16)); seen = seen.insert(8178u16) ; }
+        //@ before returnErr(zvt_builder::ZVTError::DuplicateTag(zvt_builder::Tag(8178u16)
+        //@ tag tags.duplicate_error_is_true.enable_extended_contactless_card_detection C13
+            proof { assert(seen.contains(8178u16)) ; }
+        //@ before letmutas_vec
+            let ghost req_left = required_tags@;
+        //@ before returnErr(zvt_builder::ZVTError::MissingRequiredTags
+        //@ tag tags.missing_names_all C13
+            proof {
+                assert(req_left =~= Set::<u16>::empty().difference(seen));
+                assert forall|i: int| 0 <= i < as_vec@.len() implies Set::<u16>::empty().contains((#[trigger] as_vec@[i]).0) && !seen.contains(as_vec@[i].0) by {
+                    assert(req_left.contains(as_vec@[i].0));
+                }
+                assert forall|t: u16| Set::<u16>::empty().contains(t) && !seen.contains(t) implies exists|i: int| 0 <= i < as_vec@.len() && (#[trigger] as_vec@[i]).0 == t by {
+                    assert(req_left.contains(t));
+                }
+            }
+        //@ tail
+        //@ tag tags.ok_only_if_all_mandatory C13
+            proof { assert(Set::<u16>::empty().subset_of(seen)); }
         //@ end
         proof fn law_dec_bounds(b: Seq<u8>) {}
         proof fn law_dec_frame(b: Seq<u8>, s: Seq<u8>) {}
@@ -143,10 +311,55 @@
                 invariant
                     crate::is_tail(bytes@, bytes0), crate::frame::tail_base(bytes0), bytes@.len() <= bytes0.len(),
                     curr_len <= usize::MAX,
+        //@ tag tags.bookkeeping C13
+                    actual_tags@ =~= seen,
+                    required_tags@ =~= Set::<u16>::empty().difference(seen),
+        //@ tag tags.loop.decreases C02
                 decreases bytes@.len() + (if curr_len != bytes@.len() { 1nat } else { 0nat }),
         //@ entry
             let ghost bytes0 = bytes@;
+            let ghost mut seen: Set<u16> = Set::<u16>::empty();
             proof { lemma_slice_len_le_isize_max(bytes); crate::frame::lemma_tail_base(bytes0); }
+        //@ before (device_name,bytes)=<
+        //@ tag tags.no_second_dispatch.device_name C13
+            proof { assert(!seen.contains(8000u16)); seen = seen.insert(8000u16) ; }
+        //@ before returnErr(zvt_builder::ZVTError::DuplicateTag(zvt_builder::Tag(8000u16)
+        //@ tag tags.duplicate_error_is_true.device_name C13
+            proof { assert(seen.contains(8000u16)) ; }
+        //@ before (software_version,bytes)=<
+        //@ tag tags.no_second_dispatch.software_version C13
+            proof { assert(!seen.contains(8001u16)); seen = seen.insert(8001u16) ; }
+        //@ before returnErr(zvt_builder::ZVTError::DuplicateTag(zvt_builder::Tag(8001u16)
+        //@ tag tags.duplicate_error_is_true.software_version C13
+            proof { assert(seen.contains(8001u16)) ; }
+        //@ before (serial_number,bytes)=<
+        //@ tag tags.no_second_dispatch.serial_number C13
+            proof { assert(!seen.contains(8002u16)); seen = seen.insert(8002u16) ; }
+        //@ before returnErr(zvt_builder::ZVTError::DuplicateTag(zvt_builder::Tag(8002u16)
+        //@ tag tags.duplicate_error_is_true.serial_number C13
+            proof { assert(seen.contains(8002u16)) ; }
+        //@ before (device_state,bytes)=<
+        //@ tag tags.no_second_dispatch.device_state C13
+            proof { assert(!seen.contains(8003u16)); seen = seen.insert(8003u16) ; }
+        //@ before returnErr(zvt_builder::ZVTError::DuplicateTag(zvt_builder::Tag(8003u16)
+        //@ tag tags.duplicate_error_is_true.device_state C13
+            proof { assert(seen.contains(8003u16)) ; }
+        //@ before letmutas_vec
+            let ghost req_left = required_tags@;
+        //@ before returnErr(zvt_builder::ZVTError::MissingRequiredTags
+        //@ tag tags.missing_names_all C13
+            proof {
+                assert(req_left =~= Set::<u16>::empty().difference(seen));
+                assert forall|i: int| 0 <= i < as_vec@.len() implies Set::<u16>::empty().contains((#[trigger] as_vec@[i]).0) && !seen.contains(as_vec@[i].0) by {
+                    assert(req_left.contains(as_vec@[i].0));
+                }
+                assert forall|t: u16| Set::<u16>::empty().contains(t) && !seen.contains(t) implies exists|i: int| 0 <= i < as_vec@.len() && (#[trigger] as_vec@[i]).0 == t by {
+                    assert(req_left.contains(t));
+                }
+            }
+        //@ tail
+        //@ tag tags.ok_only_if_all_mandatory C13
+            proof { assert(Set::<u16>::empty().subset_of(seen)); }
         //@ end
         proof fn law_dec_bounds(b: Seq<u8>) {}
         proof fn law_dec_frame(b: Seq<u8>, s: Seq<u8>) {}
@@ -174,10 +387,49 @@
                 invariant
                     crate::is_tail(bytes@, bytes0), crate::frame::tail_base(bytes0), bytes@.len() <= bytes0.len(),
                     curr_len <= usize::MAX,
+        //@ tag tags.bookkeeping C13
+                    actual_tags@ =~= seen,
+                    required_tags@ =~= Set::<u16>::empty().difference(seen),
+        //@ tag tags.loop.decreases C02
                 decreases bytes@.len() + (if curr_len != bytes@.len() { 1nat } else { 0nat }),
         //@ entry
             let ghost bytes0 = bytes@;
+            let ghost mut seen: Set<u16> = Set::<u16>::empty();
             proof { lemma_slice_len_le_isize_max(bytes); crate::frame::lemma_tail_base(bytes0); }
+        //@ before (terminal_id,bytes)=<
+        //@ tag tags.no_second_dispatch.terminal_id C13
+            proof { assert(!seen.contains(8004u16)); seen = seen.insert(8004u16) ; }
+        //@ before returnErr(zvt_builder::ZVTError::DuplicateTag(zvt_builder::Tag(8004u16)
+        //@ tag tags.duplicate_error_is_true.terminal_id C13
+            proof { assert(seen.contains(8004u16)) ; }
+        //@ before (device_information,bytes)=<
+        //@ tag tags.no_second_dispatch.device_information C13
+            proof { assert(!seen.contains(228u16)); seen = seen.insert(228u16) ; }
+        //@ before returnErr(zvt_builder::ZVTError::DuplicateTag(zvt_builder::Tag(228u16)
+        //@ tag tags.duplicate_error_is_true.device_information C13
+            proof { assert(seen.contains(228u16)) ; }
+        //@ before (date_time,bytes)=<
+        //@ tag tags.no_second_dispatch.date_time C13
+            proof { assert(!seen.contains(52u16)); seen = seen.insert(52u16) ; }
+        //@ before returnErr(zvt_builder::ZVTError::DuplicateTag(zvt_builder::Tag(52u16)
+        //@ tag tags.duplicate_error_is_true.date_time C13
+            proof { assert(seen.contains(52u16)) ; }
+        //@ before letmutas_vec
+            let ghost req_left = required_tags@;
+        //@ before returnErr(zvt_builder::ZVTError::MissingRequiredTags
+        //@ tag tags.missing_names_all C13
+            proof {
+                assert(req_left =~= Set::<u16>::empty().difference(seen));
+                assert forall|i: int| 0 <= i < as_vec@.len() implies Set::<u16>::empty().contains((#[trigger] as_vec@[i]).0) && !seen.contains(as_vec@[i].0) by {
+                    assert(req_left.contains(as_vec@[i].0));
+                }
+                assert forall|t: u16| Set::<u16>::empty().contains(t) && !seen.contains(t) implies exists|i: int| 0 <= i < as_vec@.len() && (#[trigger] as_vec@[i]).0 == t by {
+                    assert(req_left.contains(t));
+                }
+            }
+        //@ tail
+        //@ tag tags.ok_only_if_all_mandatory C13
+            proof { assert(Set::<u16>::empty().subset_of(seen)); }
         //@ end
         proof fn law_dec_bounds(b: Seq<u8>) {}
         proof fn law_dec_frame(b: Seq<u8>, s: Seq<u8>) {}
@@ -205,10 +457,43 @@
                 invariant
                     crate::is_tail(bytes@, bytes0), crate::frame::tail_base(bytes0), bytes@.len() <= bytes0.len(),
                     curr_len <= usize::MAX,
+        //@ tag tags.bookkeeping C13
+                    actual_tags@ =~= seen,
+                    required_tags@ =~= Set::<u16>::empty().difference(seen),
+        //@ tag tags.loop.decreases C02
                 decreases bytes@.len() + (if curr_len != bytes@.len() { 1nat } else { 0nat }),
         //@ entry
             let ghost bytes0 = bytes@;
+            let ghost mut seen: Set<u16> = Set::<u16>::empty();
             proof { lemma_slice_len_le_isize_max(bytes); crate::frame::lemma_tail_base(bytes0); }
+        //@ before (extended_error_code,bytes)=<
+        //@ tag tags.no_second_dispatch.extended_error_code C13
+            proof { assert(!seen.contains(7958u16)); seen = seen.insert(7958u16) ; }
+        //@ before returnErr(zvt_builder::ZVTError::DuplicateTag(zvt_builder::Tag(7958u16)
+        //@ tag tags.duplicate_error_is_true.extended_error_code C13
+            proof { assert(seen.contains(7958u16)) ; }
+        //@ before (extended_error_text,bytes)=<
+        //@ tag tags.no_second_dispatch.extended_error_text C13
+            proof { assert(!seen.contains(7959u16)); seen = seen.insert(7959u16) ; }
+        //@ before returnErr(zvt_builder::ZVTError::DuplicateTag(zvt_builder::Tag(7959u16)
+        //@ tag tags.duplicate_error_is_true.extended_error_text C13
+            proof { assert(seen.contains(7959u16)) ; }
+        //@ before letmutas_vec
+            let ghost req_left = required_tags@;
+        //@ before returnErr(zvt_builder::ZVTError::MissingRequiredTags
+        //@ tag tags.missing_names_all C13
+            proof {
+                assert(req_left =~= Set::<u16>::empty().difference(seen));
+                assert forall|i: int| 0 <= i < as_vec@.len() implies Set::<u16>::empty().contains((#[trigger] as_vec@[i]).0) && !seen.contains(as_vec@[i].0) by {
+                    assert(req_left.contains(as_vec@[i].0));
+                }
+                assert forall|t: u16| Set::<u16>::empty().contains(t) && !seen.contains(t) implies exists|i: int| 0 <= i < as_vec@.len() && (#[trigger] as_vec@[i]).0 == t by {
+                    assert(req_left.contains(t));
+                }
+            }
+        //@ tail
+        //@ tag tags.ok_only_if_all_mandatory C13
+            proof { assert(Set::<u16>::empty().subset_of(seen)); }
         //@ end
         proof fn law_dec_bounds(b: Seq<u8>) {}
         proof fn law_dec_frame(b: Seq<u8>, s: Seq<u8>) {}
@@ -236,10 +521,43 @@
                 invariant
                     crate::is_tail(bytes@, bytes0), crate::frame::tail_base(bytes0), bytes@.len() <= bytes0.len(),
                     curr_len <= usize::MAX,
+        //@ tag tags.bookkeeping C13
+                    actual_tags@ =~= seen,
+                    required_tags@ =~= set![8034u16, 8035u16].difference(seen),
+        //@ tag tags.loop.decreases C02
                 decreases bytes@.len() + (if curr_len != bytes@.len() { 1nat } else { 0nat }),
         //@ entry
             let ghost bytes0 = bytes@;
+            let ghost mut seen: Set<u16> = Set::<u16>::empty();
             proof { lemma_slice_len_le_isize_max(bytes); crate::frame::lemma_tail_base(bytes0); }
+        //@ before (bmp_prefix,bytes)=<
+        //@ tag tags.no_second_dispatch.bmp_prefix C13
+            proof { assert(!seen.contains(8034u16)); seen = seen.insert(8034u16) ; }
+        //@ before returnErr(zvt_builder::ZVTError::DuplicateTag(zvt_builder::Tag(8034u16)
+        //@ tag tags.duplicate_error_is_true.bmp_prefix C13
+            proof { assert(seen.contains(8034u16)) ; }
+        //@ before (bmp_data,bytes)=<
+        //@ tag tags.no_second_dispatch.bmp_data C13
+            proof { assert(!seen.contains(8035u16)); seen = seen.insert(8035u16) ; }
+        //@ before returnErr(zvt_builder::ZVTError::DuplicateTag(zvt_builder::Tag(8035u16)
+        //@ tag tags.duplicate_error_is_true.bmp_data C13
+            proof { assert(seen.contains(8035u16)) ; }
+        //@ before letmutas_vec
+            let ghost req_left = required_tags@;
+        //@ before returnErr(zvt_builder::ZVTError::MissingRequiredTags
+        //@ tag tags.missing_names_all C13
+            proof {
+                assert(req_left =~= set![8034u16, 8035u16].difference(seen));
+                assert forall|i: int| 0 <= i < as_vec@.len() implies set![8034u16, 8035u16].contains((#[trigger] as_vec@[i]).0) && !seen.contains(as_vec@[i].0) by {
+                    assert(req_left.contains(as_vec@[i].0));
+                }
+                assert forall|t: u16| set![8034u16, 8035u16].contains(t) && !seen.contains(t) implies exists|i: int| 0 <= i < as_vec@.len() && (#[trigger] as_vec@[i]).0 == t by {
+                    assert(req_left.contains(t));
+                }
+            }
+        //@ tail
+        //@ tag tags.ok_only_if_all_mandatory C13
+            proof { assert(!set![8034u16, 8035u16].difference(seen).contains(8034u16)); assert(!set![8034u16, 8035u16].difference(seen).contains(8035u16)); assert(set![8034u16, 8035u16].subset_of(seen)); }
         //@ end
         proof fn law_dec_bounds(b: Seq<u8>) {}
         proof fn law_dec_frame(b: Seq<u8>, s: Seq<u8>) {}
@@ -267,10 +585,37 @@
                 invariant
                     crate::is_tail(bytes@, bytes0), crate::frame::tail_base(bytes0), bytes@.len() <= bytes0.len(),
                     curr_len <= usize::MAX,
+        //@ tag tags.bookkeeping C13
+                    actual_tags@ =~= seen,
+                    required_tags@ =~= Set::<u16>::empty().difference(seen),
+        //@ tag tags.loop.decreases C02
                 decreases bytes@.len() + (if curr_len != bytes@.len() { 1nat } else { 0nat }),
         //@ entry
             let ghost bytes0 = bytes@;
+            let ghost mut seen: Set<u16> = Set::<u16>::empty();
             proof { lemma_slice_len_le_isize_max(bytes); crate::frame::lemma_tail_base(bytes0); }
+        //@ before (bmp_data,bytes)=<
+        //@ tag tags.no_second_dispatch.bmp_data C13
+            proof { assert(!seen.contains(233u16)); seen = seen.insert(233u16) ; }
+        //@ before returnErr(zvt_builder::ZVTError::DuplicateTag(zvt_builder::Tag(233u16)
+        //@ tag tags.duplicate_error_is_true.bmp_data C13
+            proof { assert(seen.contains(233u16)) ; }
+        //@ before letmutas_vec
+            let ghost req_left = required_tags@;
+        //@ before returnErr(zvt_builder::ZVTError::MissingRequiredTags
+        //@ tag tags.missing_names_all C13
+            proof {
+                assert(req_left =~= Set::<u16>::empty().difference(seen));
+                assert forall|i: int| 0 <= i < as_vec@.len() implies Set::<u16>::empty().contains((#[trigger] as_vec@[i]).0) && !seen.contains(as_vec@[i].0) by {
+                    assert(req_left.contains(as_vec@[i].0));
+                }
+                assert forall|t: u16| Set::<u16>::empty().contains(t) && !seen.contains(t) implies exists|i: int| 0 <= i < as_vec@.len() && (#[trigger] as_vec@[i]).0 == t by {
+                    assert(req_left.contains(t));
+                }
+            }
+        //@ tail
+        //@ tag tags.ok_only_if_all_mandatory C13
+            proof { assert(Set::<u16>::empty().subset_of(seen)); }
         //@ end
         proof fn law_dec_bounds(b: Seq<u8>) {}
         proof fn law_dec_frame(b: Seq<u8>, s: Seq<u8>) {}
@@ -298,10 +643,37 @@
                 invariant
                     crate::is_tail(bytes@, bytes0), crate::frame::tail_base(bytes0), bytes@.len() <= bytes0.len(),
                     curr_len <= usize::MAX,
+        //@ tag tags.bookkeeping C13
+                    actual_tags@ =~= seen,
+                    required_tags@ =~= Set::<u16>::empty().difference(seen),
+        //@ tag tags.loop.decreases C02
                 decreases bytes@.len() + (if curr_len != bytes@.len() { 1nat } else { 0nat }),
         //@ entry
             let ghost bytes0 = bytes@;
+            let ghost mut seen: Set<u16> = Set::<u16>::empty();
             proof { lemma_slice_len_le_isize_max(bytes); crate::frame::lemma_tail_base(bytes0); }
+        //@ before (bmp_data,bytes)=<
+        //@ tag tags.no_second_dispatch.bmp_data C13
+            proof { assert(!seen.contains(233u16)); seen = seen.insert(233u16) ; }
+        //@ before returnErr(zvt_builder::ZVTError::DuplicateTag(zvt_builder::Tag(233u16)
+        //@ tag tags.duplicate_error_is_true.bmp_data C13
+            proof { assert(seen.contains(233u16)) ; }
+        //@ before letmutas_vec
+            let ghost req_left = required_tags@;
+        //@ before returnErr(zvt_builder::ZVTError::MissingRequiredTags
+        //@ tag tags.missing_names_all C13
+            proof {
+                assert(req_left =~= Set::<u16>::empty().difference(seen));
+                assert forall|i: int| 0 <= i < as_vec@.len() implies Set::<u16>::empty().contains((#[trigger] as_vec@[i]).0) && !seen.contains(as_vec@[i].0) by {
+                    assert(req_left.contains(as_vec@[i].0));
+                }
+                assert forall|t: u16| Set::<u16>::empty().contains(t) && !seen.contains(t) implies exists|i: int| 0 <= i < as_vec@.len() && (#[trigger] as_vec@[i]).0 == t by {
+                    assert(req_left.contains(t));
+                }
+            }
+        //@ tail
+        //@ tag tags.ok_only_if_all_mandatory C13
+            proof { assert(Set::<u16>::empty().subset_of(seen)); }
         //@ end
         proof fn law_dec_bounds(b: Seq<u8>) {}
         proof fn law_dec_frame(b: Seq<u8>, s: Seq<u8>) {}
@@ -329,10 +701,37 @@
                 invariant
                     crate::is_tail(bytes@, bytes0), crate::frame::tail_base(bytes0), bytes@.len() <= bytes0.len(),
                     curr_len <= usize::MAX,
+        //@ tag tags.bookkeeping C13
+                    actual_tags@ =~= seen,
+                    required_tags@ =~= Set::<u16>::empty().difference(seen),
+        //@ tag tags.loop.decreases C02
                 decreases bytes@.len() + (if curr_len != bytes@.len() { 1nat } else { 0nat }),
         //@ entry
             let ghost bytes0 = bytes@;
+            let ghost mut seen: Set<u16> = Set::<u16>::empty();
             proof { lemma_slice_len_le_isize_max(bytes); crate::frame::lemma_tail_base(bytes0); }
+        //@ before (diagnosis_type,bytes)=<
+        //@ tag tags.no_second_dispatch.diagnosis_type C13
+            proof { assert(!seen.contains(27u16)); seen = seen.insert(27u16) ; }
+        //@ before returnErr(zvt_builder::ZVTError::DuplicateTag(zvt_builder::Tag(27u16)
+        //@ tag tags.duplicate_error_is_true.diagnosis_type C13
+            proof { assert(seen.contains(27u16)) ; }
+        //@ before letmutas_vec
+            let ghost req_left = required_tags@;
+        //@ before returnErr(zvt_builder::ZVTError::MissingRequiredTags
+        //@ tag tags.missing_names_all C13
+            proof {
+                assert(req_left =~= Set::<u16>::empty().difference(seen));
+                assert forall|i: int| 0 <= i < as_vec@.len() implies Set::<u16>::empty().contains((#[trigger] as_vec@[i]).0) && !seen.contains(as_vec@[i].0) by {
+                    assert(req_left.contains(as_vec@[i].0));
+                }
+                assert forall|t: u16| Set::<u16>::empty().contains(t) && !seen.contains(t) implies exists|i: int| 0 <= i < as_vec@.len() && (#[trigger] as_vec@[i]).0 == t by {
+                    assert(req_left.contains(t));
+                }
+            }
+        //@ tail
+        //@ tag tags.ok_only_if_all_mandatory C13
+            proof { assert(Set::<u16>::empty().subset_of(seen)); }
         //@ end
         proof fn law_dec_bounds(b: Seq<u8>) {}
         proof fn law_dec_frame(b: Seq<u8>, s: Seq<u8>) {}
@@ -360,10 +759,43 @@
                 invariant
                     crate::is_tail(bytes@, bytes0), crate::frame::tail_base(bytes0), bytes@.len() <= bytes0.len(),
                     curr_len <= usize::MAX,
+        //@ tag tags.bookkeeping C13
+                    actual_tags@ =~= seen,
+                    required_tags@ =~= Set::<u16>::empty().difference(seen),
+        //@ tag tags.loop.decreases C02
                 decreases bytes@.len() + (if curr_len != bytes@.len() { 1nat } else { 0nat }),
         //@ entry
             let ghost bytes0 = bytes@;
+            let ghost mut seen: Set<u16> = Set::<u16>::empty();
             proof { lemma_slice_len_le_isize_max(bytes); crate::frame::lemma_tail_base(bytes0); }
+        //@ before (card_reading_control,bytes)=<
+        //@ tag tags.no_second_dispatch.card_reading_control C13
+            proof { assert(!seen.contains(7957u16)); seen = seen.insert(7957u16) ; }
+        //@ before returnErr(zvt_builder::ZVTError::DuplicateTag(zvt_builder::Tag(7957u16)
+        //@ tag tags.duplicate_error_is_true.card_reading_control C13
+            proof { assert(seen.contains(7957u16)) ; }
+        //@ before (card_type,bytes)=<
+        //@ tag tags.no_second_dispatch.card_type C13
+            proof { assert(!seen.contains(8032u16)); seen = seen.insert(8032u16) ; }
+        //@ before returnErr(zvt_builder::ZVTError::DuplicateTag(zvt_builder::Tag(8032u16)
+        //@ tag tags.duplicate_error_is_true.card_type C13
+            proof { assert(seen.contains(8032u16)) ; }
+        //@ before letmutas_vec
+            let ghost req_left = required_tags@;
+        //@ before returnErr(zvt_builder::ZVTError::MissingRequiredTags
+        //@ tag tags.missing_names_all C13
+            proof {
+                assert(req_left =~= Set::<u16>::empty().difference(seen));
+                assert forall|i: int| 0 <= i < as_vec@.len() implies Set::<u16>::empty().contains((#[trigger] as_vec@[i]).0) && !seen.contains(as_vec@[i].0) by {
+                    assert(req_left.contains(as_vec@[i].0));
+                }
+                assert forall|t: u16| Set::<u16>::empty().contains(t) && !seen.contains(t) implies exists|i: int| 0 <= i < as_vec@.len() && (#[trigger] as_vec@[i]).0 == t by {
+                    assert(req_left.contains(t));
+                }
+            }
+        //@ tail
+        //@ tag tags.ok_only_if_all_mandatory C13
+            proof { assert(Set::<u16>::empty().subset_of(seen)); }
         //@ end
         proof fn law_dec_bounds(b: Seq<u8>) {}
         proof fn law_dec_frame(b: Seq<u8>, s: Seq<u8>) {}
@@ -391,10 +823,37 @@
                 invariant
                     crate::is_tail(bytes@, bytes0), crate::frame::tail_base(bytes0), bytes@.len() <= bytes0.len(),
                     curr_len <= usize::MAX,
+        //@ tag tags.bookkeeping C13
+                    actual_tags@ =~= seen,
+                    required_tags@ =~= set![7u16].difference(seen),
+        //@ tag tags.loop.decreases C02
                 decreases bytes@.len() + (if curr_len != bytes@.len() { 1nat } else { 0nat }),
         //@ entry
             let ghost bytes0 = bytes@;
+            let ghost mut seen: Set<u16> = Set::<u16>::empty();
             proof { lemma_slice_len_le_isize_max(bytes); crate::frame::lemma_tail_base(bytes0); }
+        //@ before (line,bytes)=<
+        //@ tag tags.no_second_dispatch.line C13
+            proof { assert(!seen.contains(7u16)); seen = seen.insert(7u16) ; }
+        //@ before returnErr(zvt_builder::ZVTError::DuplicateTag(zvt_builder::Tag(7u16)
+        //@ tag tags.duplicate_error_is_true.line C13
+            proof { assert(seen.contains(7u16)) ; }
+        //@ before letmutas_vec
+            let ghost req_left = required_tags@;
+        //@ before returnErr(zvt_builder::ZVTError::MissingRequiredTags
+        //@ tag tags.missing_names_all C13
+            proof {
+                assert(req_left =~= set![7u16].difference(seen));
+                assert forall|i: int| 0 <= i < as_vec@.len() implies set![7u16].contains((#[trigger] as_vec@[i]).0) && !seen.contains(as_vec@[i].0) by {
+                    assert(req_left.contains(as_vec@[i].0));
+                }
+                assert forall|t: u16| set![7u16].contains(t) && !seen.contains(t) implies exists|i: int| 0 <= i < as_vec@.len() && (#[trigger] as_vec@[i]).0 == t by {
+                    assert(req_left.contains(t));
+                }
+            }
+        //@ tail
+        //@ tag tags.ok_only_if_all_mandatory C13
+            proof { assert(!set![7u16].difference(seen).contains(7u16)); assert(set![7u16].subset_of(seen)); }
         //@ end
         proof fn law_dec_bounds(b: Seq<u8>) {}
         proof fn law_dec_frame(b: Seq<u8>, s: Seq<u8>) {}
@@ -422,10 +881,43 @@
                 invariant
                     crate::is_tail(bytes@, bytes0), crate::frame::tail_base(bytes0), bytes@.len() <= bytes0.len(),
                     curr_len <= usize::MAX,
+        //@ tag tags.bookkeeping C13
+                    actual_tags@ =~= seen,
+                    required_tags@ =~= Set::<u16>::empty().difference(seen),
+        //@ tag tags.loop.decreases C02
                 decreases bytes@.len() + (if curr_len != bytes@.len() { 1nat } else { 0nat }),
         //@ entry
             let ghost bytes0 = bytes@;
+            let ghost mut seen: Set<u16> = Set::<u16>::empty();
             proof { lemma_slice_len_le_isize_max(bytes); crate::frame::lemma_tail_base(bytes0); }
+        //@ before (lines,bytes)=<
+        //@ tag tags.no_second_dispatch.lines C13
+            proof { assert(!seen.contains(7u16)); seen = seen.insert(7u16) ; }
+        //@ before returnErr(zvt_builder::ZVTError::DuplicateTag(zvt_builder::Tag(7u16)
+        //@ tag tags.duplicate_error_is_true.lines C13
+            proof { assert(seen.contains(7u16)) ; }
+        //@ before (eol,bytes)=<
+        //@ tag tags.no_second_dispatch.eol C13
+            proof { assert(!seen.contains(9u16)); seen = seen.insert(9u16) ; }
+        //@ before returnErr(zvt_builder::ZVTError::DuplicateTag(zvt_builder::Tag(9u16)
+        //@ tag tags.duplicate_error_is_true.eol C13
+            proof { assert(seen.contains(9u16)) ; }
+        //@ before letmutas_vec
+            let ghost req_left = required_tags@;
+        //@ before returnErr(zvt_builder::ZVTError::MissingRequiredTags
+        //@ tag tags.missing_names_all C13
+            proof {
+                assert(req_left =~= Set::<u16>::empty().difference(seen));
+                assert forall|i: int| 0 <= i < as_vec@.len() implies Set::<u16>::empty().contains((#[trigger] as_vec@[i]).0) && !seen.contains(as_vec@[i].0) by {
+                    assert(req_left.contains(as_vec@[i].0));
+                }
+                assert forall|t: u16| Set::<u16>::empty().contains(t) && !seen.contains(t) implies exists|i: int| 0 <= i < as_vec@.len() && (#[trigger] as_vec@[i]).0 == t by {
+                    assert(req_left.contains(t));
+                }
+            }
+        //@ tail
+        //@ tag tags.ok_only_if_all_mandatory C13
+            proof { assert(Set::<u16>::empty().subset_of(seen)); }
         //@ end
         proof fn law_dec_bounds(b: Seq<u8>) {}
         proof fn law_dec_frame(b: Seq<u8>, s: Seq<u8>) {}
@@ -453,10 +945,43 @@
                 invariant
                     crate::is_tail(bytes@, bytes0), crate::frame::tail_base(bytes0), bytes@.len() <= bytes0.len(),
                     curr_len <= usize::MAX,
+        //@ tag tags.bookkeeping C13
+                    actual_tags@ =~= seen,
+                    required_tags@ =~= Set::<u16>::empty().difference(seen),
+        //@ tag tags.loop.decreases C02
                 decreases bytes@.len() + (if curr_len != bytes@.len() { 1nat } else { 0nat }),
         //@ entry
             let ghost bytes0 = bytes@;
+            let ghost mut seen: Set<u16> = Set::<u16>::empty();
             proof { lemma_slice_len_le_isize_max(bytes); crate::frame::lemma_tail_base(bytes0); }
+        //@ before (receipt_type,bytes)=<
+        //@ tag tags.no_second_dispatch.receipt_type C13
+            proof { assert(!seen.contains(7943u16)); seen = seen.insert(7943u16) ; }
+        //@ before returnErr(zvt_builder::ZVTError::DuplicateTag(zvt_builder::Tag(7943u16)
+        //@ tag tags.duplicate_error_is_true.receipt_type C13
+            proof { assert(seen.contains(7943u16)) ; }
+        //@ before (lines,bytes)=<
+        //@ tag tags.no_second_dispatch.lines C13
+            proof { assert(!seen.contains(37u16)); seen = seen.insert(37u16) ; }
+        //@ before returnErr(zvt_builder::ZVTError::DuplicateTag(zvt_builder::Tag(37u16)
+        //@ tag tags.duplicate_error_is_true.lines C13
+            proof { assert(seen.contains(37u16)) ; }
+        //@ before letmutas_vec
+            let ghost req_left = required_tags@;
+        //@ before returnErr(zvt_builder::ZVTError::MissingRequiredTags
+        //@ tag tags.missing_names_all C13
+            proof {
+                assert(req_left =~= Set::<u16>::empty().difference(seen));
+                assert forall|i: int| 0 <= i < as_vec@.len() implies Set::<u16>::empty().contains((#[trigger] as_vec@[i]).0) && !seen.contains(as_vec@[i].0) by {
+                    assert(req_left.contains(as_vec@[i].0));
+                }
+                assert forall|t: u16| Set::<u16>::empty().contains(t) && !seen.contains(t) implies exists|i: int| 0 <= i < as_vec@.len() && (#[trigger] as_vec@[i]).0 == t by {
+                    assert(req_left.contains(t));
+                }
+            }
+        //@ tail
+        //@ tag tags.ok_only_if_all_mandatory C13
+            proof { assert(Set::<u16>::empty().subset_of(seen)); }
         //@ end
         proof fn law_dec_bounds(b: Seq<u8>) {}
         proof fn law_dec_frame(b: Seq<u8>, s: Seq<u8>) {}
@@ -484,10 +1009,37 @@
                 invariant
                     crate::is_tail(bytes@, bytes0), crate::frame::tail_base(bytes0), bytes@.len() <= bytes0.len(),
                     curr_len <= usize::MAX,
+        //@ tag tags.bookkeeping C13
+                    actual_tags@ =~= seen,
+                    required_tags@ =~= Set::<u16>::empty().difference(seen),
+        //@ tag tags.loop.decreases C02
                 decreases bytes@.len() + (if curr_len != bytes@.len() { 1nat } else { 0nat }),
         //@ entry
             let ghost bytes0 = bytes@;
+            let ghost mut seen: Set<u16> = Set::<u16>::empty();
             proof { lemma_slice_len_le_isize_max(bytes); crate::frame::lemma_tail_base(bytes0); }
+        //@ before (max_len_adpu,bytes)=<
+        //@ tag tags.no_second_dispatch.max_len_adpu C13
+            proof { assert(!seen.contains(26u16)); seen = seen.insert(26u16) ; }
+        //@ before returnErr(zvt_builder::ZVTError::DuplicateTag(zvt_builder::Tag(26u16)
+        //@ tag tags.duplicate_error_is_true.max_len_adpu C13
+            proof { assert(seen.contains(26u16)) ; }
+        //@ before letmutas_vec
+            let ghost req_left = required_tags@;
+        //@ before returnErr(zvt_builder::ZVTError::MissingRequiredTags
+        //@ tag tags.missing_names_all C13
+            proof {
+                assert(req_left =~= Set::<u16>::empty().difference(seen));
+                assert forall|i: int| 0 <= i < as_vec@.len() implies Set::<u16>::empty().contains((#[trigger] as_vec@[i]).0) && !seen.contains(as_vec@[i].0) by {
+                    assert(req_left.contains(as_vec@[i].0));
+                }
+                assert forall|t: u16| Set::<u16>::empty().contains(t) && !seen.contains(t) implies exists|i: int| 0 <= i < as_vec@.len() && (#[trigger] as_vec@[i]).0 == t by {
+                    assert(req_left.contains(t));
+                }
+            }
+        //@ tail
+        //@ tag tags.ok_only_if_all_mandatory C13
+            proof { assert(Set::<u16>::empty().subset_of(seen)); }
         //@ end
         proof fn law_dec_bounds(b: Seq<u8>) {}
         proof fn law_dec_frame(b: Seq<u8>, s: Seq<u8>) {}
